@@ -18,6 +18,9 @@ CHECKS = {
     'C09': ('lock-order graph over (mutex, instance role) nodes extended with pseudo-locks for libevent callbacks (held while the callback runs, acquired by blocking event_del/event_free) and thread joins; cycle search; critical-section (same guard) typestate for timer free/erase; CFG x DFA for exactly-once delivery; lock-set rule for the bookkeeping maps; table/shape extraction for delay units',
             'Decides for all schedules that the delayed-event machinery has no lock-order cycle other than the recorded findings, that a fired or cancelled timer is freed and un-published in one critical section (no double free / use after free), that the callback delivers exactly once or not at all, that cancel visits and removes every matching entry, that the bookkeeping maps are only touched under their mutex, and that delay units are converted correctly.',
             'Not decided: wall-clock timing ("not before its delay"); due-time order among timers is libevent\'s.'),
+    'C10': ('exact abstract interpretation of the engines\' 6-bit _flags word (complete (flags, return code, events) relation, closed under reachability from PRISTINE); null-handle typestate of the facade handles on the CFG of the pre-init API entries; field-write facts (step() vs reset()); dominance rules for the cancel protocol and destructor order; sticky-wake-up rule for while(flag)-dispatch thread roots; lock-order cycles through joins; shared-field lock-set table over thread-root reachability',
+            'Decides for all charts and schedules the life-cycle automaton of step() results (finished absorbing, cancelled -> exactly one finalising step, idle only when stable, pristine enters the initial configuration), that receive/cancel/reset/destruction never use a handle that init() has not created, that reset() re-initialises every persistent run-state member and queue, that cancel() marks before it unblocks and the woken step sees the mark, that the timer thread is woken with a sticky primitive and never joined under a lock it needs (recorded finding excepted), and that every field shared between the API, timer and invoker threads has a common mutex or a confirmed reason.',
+            'Not decided: that a reset interpreter behaves like a fresh one beyond member coverage (data model values).'),
     'C12': ('call-graph who-calls rule for the single matcher; linear normal form of token guards and a confirmed table of skip/start/last-token combinations in the sibling scanner loops; structural fingerprint + decision-feature comparison of the two matcher copies; normalisation-feature extraction at every trie lookup',
             'Decides that interpreter, validator and debugger share one matcher, that every whitespace-splitting scanner (incl. the copies shipped for generated C) takes every non-empty token, that the shipped copy of the matcher has the same decision features, and that Promela and VHDL normalise descriptors alike before static resolution.',
             'Not decided: the relation nameMatch computes on all strings (needs execution or a solver).'),
